@@ -568,18 +568,33 @@ Qed.
 Lemma cell_full_nocap st c : s_cap st = 0 -> cell_full st c = false.
 Proof. intros H. unfold cell_full. rewrite H. reflexivity. Qed.
 
-Lemma do_move_err_unchanged st a c0 c st' k :
-  (s_discrete st = true -> s_cap st = 0) -> do_move st a c0 c = (st', RErr k) -> st' = st.
+(* "Cell is full" executes `self.empty = False` before it raises; everything else that is
+   rejected has not touched the state.  full_noop st: that one statement changes nothing in st. *)
+Definition full_noop (st : state) : Prop :=
+  forall c, valid_coord (s_dims st) c = true -> cell_full st c = true -> cell_setattr st c EMPTY 0 = st.
+Lemma full_noop_nocap st : s_cap st = 0 -> full_noop st.
+Proof. intros H c _ Hf. rewrite (cell_full_nocap st c H) in Hf. discriminate. Qed.
+
+Lemma add_err_unchanged st a c st' :
+  full_noop st -> valid_coord (s_dims st) c = true -> cell_add_agent st a c = (st', false) -> st' = st.
 Proof.
-  intros Hc. unfold do_move. destruct (s_discrete st) eqn:Ed.
+  intros Hn Hc. unfold cell_add_agent. destruct (cell_full st c) eqn:Ef; intros H; inversion H.
+  apply Hn; assumption.
+Qed.
+
+Lemma do_move_err_unchanged st a c0 c st' k :
+  (s_discrete st = true -> full_noop st) -> valid_coord (s_dims st) c = true ->
+  do_move st a c0 c = (st', RErr k) -> st' = st.
+Proof.
+  intros Hn Hc. unfold do_move. destruct (s_discrete st) eqn:Ed.
   - destruct (coord_eqb c c0); [intros H; inversion H|].
-    unfold cell_add_agent. rewrite (cell_full_nocap st c (Hc eq_refl)). intros H; inversion H.
+    destruct (cell_add_agent st a c) as [st1 [|]] eqn:EA; intros H; inversion H; subst.
+    eapply add_err_unchanged; eauto.
   - destruct (negb (s_multi st) && occupied (drop_agent (s_agents st) a) c); intros H; inversion H; reflexivity.
 Qed.
 
-(* every rejection except "Cell is full" (which first executes `self.empty = False`) *)
 Lemma step_err_unchanged st o st' k :
-  inv st -> (s_discrete st = true -> s_cap st = 0) -> step st o = (st', RErr k) -> st' = st.
+  inv st -> (s_discrete st = true -> full_noop st) -> step st o = (st', RErr k) -> st' = st.
 Proof.
   intros I Hc. destruct o; simpl.
   - intros H; inversion H.
@@ -597,18 +612,20 @@ Proof.
     destruct (modify_cells L fm f hasval cd); intros H; inversion H; reflexivity.
   - case_all; intros H; inversion H; reflexivity.
   - destruct (select_mask st conds exts masks only_empty); intros H; inversion H; reflexivity.
-  - destruct (valid_coord (s_dims st) c); [|intros H; inversion H].
+  - destruct (valid_coord (s_dims st) c) eqn:Hv; [|intros H; inversion H].
     destruct (agent_cell (s_agents st) a); [intros H; inversion H|].
     destruct (s_discrete st) eqn:Ed.
-    + unfold cell_add_agent. rewrite (cell_full_nocap st c (Hc eq_refl)). intros H; inversion H.
+    + destruct (cell_add_agent st a c) as [st1 [|]] eqn:EA; intros H; inversion H; subst.
+      eapply add_err_unchanged; eauto.
     + case_all; intros H; inversion H; reflexivity.
-  - destruct (valid_coord (s_dims st) c); [|intros H; inversion H].
-    destruct (agent_cell (s_agents st) a); [|intros H; inversion H]. apply do_move_err_unchanged. exact Hc.
+  - destruct (valid_coord (s_dims st) c) eqn:Hv; [|intros H; inversion H].
+    destruct (agent_cell (s_agents st) a); [|intros H; inversion H]. apply do_move_err_unchanged; assumption.
   - destruct (s_discrete st) eqn:Ed; [|intros H; inversion H].
     destruct (agent_cell (s_agents st) a) as [c0|]; [|intros H; inversion H].
-    destruct (Nat.eqb (length dir) (length c0) && dir_ok moore dir && valid_coord (s_dims st) (vadd c0 dir));
+    destruct (Nat.eqb (length dir) (length c0) && dir_ok moore dir && valid_coord (s_dims st) (vadd c0 dir)) eqn:Eg;
       [|intros H; inversion H; reflexivity].
-    apply do_move_err_unchanged. rewrite Ed. exact Hc.
+    apply andb_true_iff in Eg. destruct Eg as [_ Hv].
+    apply do_move_err_unchanged; [rewrite Ed; exact Hc|exact Hv].
   - case_all; intros H; inversion H.
   - intros H; inversion H.
 Qed.
@@ -621,7 +638,10 @@ Proof. intros [d [multi [cap [dims [ops ->]]]]]. apply run_state_inv. apply inv_
 
 Lemma atomic_reachable st o st' k :
   reachable st -> (s_discrete st = true -> s_cap st = 0) -> step st o = (st', RErr k) -> st' = st.
-Proof. intros R. apply step_err_unchanged. apply reachable_inv. exact R. Qed.
+Proof.
+  intros R Hc. apply step_err_unchanged; [apply reachable_inv; exact R|].
+  intros Hd. apply full_noop_nocap. exact (Hc Hd).
+Qed.
 
 (* ... hence the rest of the history cannot tell that the call was ever made *)
 Lemma atomic_continue st o st' k ops :
